@@ -2688,7 +2688,9 @@ func (p *Posix) UploadPartCopy(ctx context.Context, upi *s3.UploadPartCopyInput)
 	// TODO: Should the checksum be recalculated or just copied ?
 	var hashRdr *utils.HashReader
 	if mpChecksums.Algorithm != "" {
-		if checksums.Algorithm == "" || mpChecksums.Algorithm != checksums.Algorithm {
+		// the source's stored checksum can stand for the part only when
+		// the part is the whole source
+		if checksums.Algorithm == "" || mpChecksums.Algorithm != checksums.Algorithm || length != fi.Size() {
 			hashRdr, err = utils.NewHashReader(tr, "", utils.HashType(strings.ToLower(string(mpChecksums.Algorithm))))
 			if err != nil {
 				return s3response.CopyPartResult{}, fmt.Errorf("initialize hash reader: %w", err)
@@ -2711,7 +2713,7 @@ func (p *Posix) UploadPartCopy(ctx context.Context, upi *s3.UploadPartCopyInput)
 			checksums = s3response.Checksum{}
 		} else {
 			if hashRdr == nil {
-				err := p.storeChecksums(f.File(), objPath, "", checksums)
+				err := p.storeChecksums(f.File(), *upi.Bucket, partPath, checksums)
 				if err != nil {
 					return s3response.CopyPartResult{}, fmt.Errorf("store part checksum: %w", err)
 				}
@@ -2738,7 +2740,7 @@ func (p *Posix) UploadPartCopy(ctx context.Context, upi *s3.UploadPartCopyInput)
 			checksums.CRC64NVME = &sum
 		}
 
-		err := p.storeChecksums(f.File(), objPath, "", checksums)
+		err := p.storeChecksums(f.File(), *upi.Bucket, partPath, checksums)
 		if err != nil {
 			return s3response.CopyPartResult{}, fmt.Errorf("store part checksum: %w", err)
 		}
@@ -4232,12 +4234,16 @@ func (p *Posix) CopyObject(ctx context.Context, input s3response.CopyObjectInput
 					return nil, fmt.Errorf("initialize hash reader: %w", err)
 				}
 
-				_, err = hashReader.Read(nil)
+				// the checksum of the whole object: read it to the end
+				_, err = io.Copy(io.Discard, hashReader)
 				if err != nil {
 					return nil, fmt.Errorf("read err: %w", err)
 				}
 
-				checksums = s3response.Checksum{}
+				checksums = s3response.Checksum{
+					Algorithm: input.ChecksumAlgorithm,
+					Type:      types.ChecksumTypeFullObject,
+				}
 
 				sum := hashReader.Sum()
 				switch hashReader.Type() {
